@@ -2,6 +2,7 @@
    Property theorems only.  The machine is Model/Cache.v (loadcache / savecache of
    pygopherd/handlers/dir.py); every theorem quantifies over ALL finite histories
    `ops` (directory mutations, clock advances, listings through any protocols,
+   requests that never reach getdirlist() (HTTP HEAD, Gopher+ !),
    harmless damage) and over both variants of the code (`rep` = pinned / repaired
    loadcache).  Replies are stamped (time, directory content at the request, reply);
    `out` lists them newest first.  D, L, P, gen, enc, decode, life are arbitrary;
